@@ -226,6 +226,7 @@ def merge_parts(res, parts):
         res['queries'] += summ['queries']
         res['solver_s'] = round(res['solver_s'] + summ['solver_s'], 3)
         res['unknown_queries'] = res.get('unknown_queries', 0) + summ['unknown_queries']
+        res['cvc5_queries'] = res.get('cvc5_queries', 0) + summ.get('cvc5_queries', 0)
         for k, v in summ['outcomes'].items():
             res['outcomes'][k] = res['outcomes'].get(k, 0) + v
         if not summ['exhausted']:
@@ -255,6 +256,7 @@ def _run_job(pid, job, opts, res, ctl=None):
     vm.max_depth = job.get('max_depth', 60)
     vm.query_timeout_ms = job.get('query_timeout_ms', 10000)
     vm.incremental_timeout_ms = job.get('incremental_timeout_ms', 1500)
+    vm.cvc5_fallback = bool(job.get('cvc5_fallback', False))
     vm.solver.s.set('timeout', vm.query_timeout_ms)
     if 'bv_width' in job:
         vm.bv_width = job['bv_width']
@@ -395,6 +397,7 @@ def _run_job(pid, job, opts, res, ctl=None):
     res['solver_s'] = round(summary['solver_s'], 3)
     res['outcomes'] = summary['outcomes']
     res['unknown_queries'] = summary['unknown_queries']
+    res['cvc5_queries'] = summary.get('cvc5_queries', 0)
     if summary['stop']:
         res['inconclusive'].append('exploration stopped early: ' + summary['stop'])
     res['functions'] = dict(vm.funcs_seen)
@@ -594,6 +597,7 @@ def write_evidence_file(pid, mod, tier, seed, results, canary_results, listed, n
             jobs=[dict(name=r['job'], bounds=r['bounds'], paths=r['paths'], decisions=r['decisions'], queries=r['queries'],
                        solver_s=r['solver_s'], wall_s=round(r['wall'], 2), exhausted=r['exhausted'],
                        replayed=r['validated'], replay_skipped=r['replay_skipped'], feasibility_unproven=r['unproven'],
+                       **({'queries_sent_to_cvc5_after_z3_unknown_twice': r['cvc5_queries']} if r.get('cvc5_queries') else {}),
                        outcomes=dict(list(sorted(r['outcomes'].items(), key=lambda kv: -kv[1]))[:12]))
                   for r in sorted(results, key=lambda r: r['job'])],
             solver_queries=sum(r['queries'] for r in results),
